@@ -180,6 +180,7 @@ package httpapi
 //@ fn formatRows
 //@   property C37
 //@   requires rows != nil
+//@   requires byteCap >= 1      // the header's newline alone is one byte; the only caller passes dataQueryByteCap = 64 KiB
 //@   witness nrows int = n
 //@   witness blen int = len(body.buf)
 //@   witness hdrlen int = hdr
